@@ -33,7 +33,7 @@ DECIDING_COUNTERS = ["bins_compared"]
 MIN_NONTRIVIAL = {"quick": 400, "thorough": 4000}
 JOBS = {"quick": 10, "thorough": 16}
 
-L_QUICK = [1, 2, 3, 4, 5, 7, 8, 16, 31, 64, 100, 257, 1024, 4096]
+L_QUICK = [1, 2, 3, 4, 5, 7, 8, 16, 31, 64, 100, 257, 1024, 1025, 2049, 4096, 4097]
 L_THOROUGH = L_QUICK + [16384, 65536, 262144]
 K_SET = [1, 2, 3, 17, 256, 5000]
 
